@@ -710,6 +710,32 @@ def dedup_broken(res, limit=12):
     res.broken = out[:limit]
 
 
+def with_reg_alias(cases, status, every=4):
+    """add, for one case in `every` of each kernel that has them, the in-place call patterns `<op>__ra<o>_<k>` (the output
+    register object is also the input register k: `f(x, x, b)`, `f(x, a, x)`): same request, same model reply (value semantics),
+    same specification; a kernel that writes its output reference before it has read that input answers differently"""
+    ra = status.get("reg_alias") or {}
+    out = list(cases)
+    count = {}
+    for c in cases:
+        toks = c["line"].split(" ", 1)
+        op = toks[0].lstrip("!^")
+        vs = ra.get(op)
+        if not vs:
+            continue
+        count[op] = count.get(op, 0) + 1
+        if count[op] % every:
+            continue
+        v = vs[(count[op] // every) % len(vs)]
+        cc = dict(c)
+        cc["line"] = toks[0].replace(op, v) + (" " + toks[1] if len(toks) > 1 else "")
+        cc["key"] = v
+        if cc.get("tag"):
+            cc["tag"] = "%s|in-place" % cc["tag"]
+        out.append(cc)
+    return out
+
+
 def corr_campaign(res, harness, driver, cases, flavour, spec=None):
     """cases: list of dict(line, key, tag(optional nontrivial tag), expect(optional fn(list[int]) -> (ok, expected_str)))
     compares implementation with model (correspondence) and, when `expect` is present, implementation with spec."""
